@@ -70,4 +70,7 @@ PROPS["C16"] = dict(jobs=None, obl=None, bounded="c16", level="other", design="4
 PROPS["C14"] = dict(jobs=None, obl=None, bounded="c14", level="other", design="4 C14",
                     technique="bounded stand-in, exhaustive over its finite domain: every parameter of every public class x every applicable kind of invalid value x {construction, assignment in a live system}; exception required and whole-model snapshot (values, identities, links) unchanged after a refused assignment")
 
+PROPS["C15"] = dict(jobs=None, obl=None, bounded="c15", level="other", design="4 C01/C15",
+                    technique="bounded stand-in: 7 failure points x re-assignment style x one/two failures x follow-up edits; model after recovery vs before the failure (values, inputs, graph links) and vs a fresh build after a further edit")
+
 NOT_BUILT = {}
